@@ -2,7 +2,7 @@
    Print Assumptions.  Costs are integers (dyadic floats scaled by 2^30; 2^-26 is 16). *)
 From Coq Require Import ZArith List Bool.
 From Centro Require Import Base.Sx Model.Lapjv Spec.Lapjv Proofs.LapjvCert Proofs.LapjvRefute Proofs.LapjvTrack
-  Proofs.LapjvPhases Proofs.LapjvAbstract Proofs.LapjvGrid Proofs.LapjvArr Proofs.LapjvRows Proofs.LapjvTrackCost Proofs.LapjvRt Proofs.LapjvHall Proofs.LapjvBsearch Proofs.LapjvTrackLink Proofs.LapjvArrExt Proofs.LapjvExtModel Proofs.LapjvAugMarks Proofs.LapjvAugFlip Proofs.LapjvAugPred Proofs.LapjvAugRows Proofs.LapjvPerm Proofs.LapjvFixedPerm Proofs.LapjvAugFuel Proofs.LapjvAugPrice Proofs.LapjvAugStamps Proofs.LapjvAugOpt Proofs.LapjvAugDist Proofs.LapjvAugDistHyp Proofs.LapjvAugPriceExt Proofs.LapjvReserved Proofs.LapjvRefPerm Proofs.LapjvAugDistR Proofs.LapjvAugDistHypR Proofs.LapjvAugTotalR.
+  Proofs.LapjvPhases Proofs.LapjvAbstract Proofs.LapjvGrid Proofs.LapjvArr Proofs.LapjvRows Proofs.LapjvTrackCost Proofs.LapjvRt Proofs.LapjvHall Proofs.LapjvBsearch Proofs.LapjvTrackLink Proofs.LapjvArrExt Proofs.LapjvExtModel Proofs.LapjvAugMarks Proofs.LapjvAugFlip Proofs.LapjvAugPred Proofs.LapjvAugRows Proofs.LapjvPerm Proofs.LapjvFixedPerm Proofs.LapjvAugFuel Proofs.LapjvAugPrice Proofs.LapjvAugStamps Proofs.LapjvAugOpt Proofs.LapjvAugDist Proofs.LapjvAugDistHyp Proofs.LapjvAugPriceExt Proofs.LapjvReserved Proofs.LapjvRefPerm Proofs.LapjvAugDistR Proofs.LapjvAugDistHypR Proofs.LapjvAugTotalR Proofs.LapjvRefTotal.
 Import ListNotations.
 Open Scope Z_scope.
 
@@ -571,8 +571,7 @@ Print Assumptions C01_lapjv_ref_fixed_optimal_grid.
    row structure has no Hall block (has_PM gives this through C01_hall_block): every candidate of the free row and of the rows
    of ready columns has a finite d, hence is on to_do or in ready; if all to_do columns were done, |ready| + 1 rows would have
    all their candidates among |ready| columns.  So the read p_scan[low] after a rebuild is always inside the list.
-   NOT yet derived from it: C01_lapjv_ref_augment_total (missing lemma: aug_loop_totalR - the induction of aug_loop_distR
-   redone with "exists result", using this theorem, C01_aug_loop_fuel and C01_aug_lookup_defined). *)
+   C01_lapjv_ref_augment_total below is derived from it. *)
 Theorem C01_aug_scan_nonempty_ref : forall (r n : nat) (rows : list (list (nat * ext))) (x y : list nat) (v : list ext),
   (forall i j c, In (j, c) (row rows i) -> (j < n)%nat /\ exists z, c = Fin z) ->
   Inv n rows x y v ->
@@ -584,6 +583,98 @@ Theorem C01_aug_scan_nonempty_ref : forall (r n : nat) (rows : list (list (nat *
   snd (aug_min r n (g_d s) (g_done s) (g_todo s) PInf []) <> [].
 Proof. exact rebuild_nonempty. Qed.
 Print Assumptions C01_aug_scan_nonempty_ref.
+
+(* Round 12.  augment of the reference variant ALWAYS RETURNS under has_PM (inputs with >= 2 candidates per row): from
+   whatever state phases 1-3 of the (Fixed, eps 0 at :202, any eps >= 0 at :208, any k) solver hand over, the fold of
+   aug_row over the pending rows returns.  Per iteration of the Dijkstra loop (Proofs.LapjvAugDistR.aug_iterR): it returns,
+   or it continues under the invariant with one more ready column (fuel n + 2 suffices), or it would fail - by an empty
+   rebuild of scan, excluded by C01_aug_scan_nonempty_ref, or by an undefined cost lookup, excluded by C01_cost_at_listed;
+   the flip loop returns by C01_aug_flip_chain. *)
+Theorem C01_lapjv_ref_augment_total : forall n tri,
+  (forall t, In t tri -> (t_i t < n)%nat /\ (t_j t < n)%nat) ->
+  NoDup (map fst tri) ->
+  (forall j, (j < n)%nat -> exists t, In t tri /\ t_j t = j) ->
+  has_PM n tri ->
+  (forall i, (i < n)%nat -> (2 <= length (filter (fun t => (t_i t =? i)%nat) tri))%nat) ->
+  forall epsr k x2 y2 v2 ii, 0 <= epsr ->
+  let rows := rows_of n tri in
+  let mi := min_i n tri in
+  let x0 := x_init n mi in
+  let y0 := y_init n x0 in
+  let uv := reduction_transfer Fixed n rows (jflat_of rows) x0 (one_rows n mi) (repeat (Fin 0) n) (v_init n tri) in
+  match free_rows n mi with
+  | [] => Some (x0, y0, snd uv, free_rows n mi)
+  | _ => arr_passes k (arr_fuel n tri) (Fin 0) (Fin epsr) n rows (x0, y0, snd uv, free_rows n mi)
+  end = Some (x2, y2, v2, ii) ->
+  exists sf, fold_left (aug_row n PInf rows) ii
+               (Some (mkMain x2 y2 v2 (repeat (Fin 0) n) (repeat 1%nat n) (repeat n n) (repeat n n))) = Some sf.
+Proof. exact ref_augment_total_2. Qed.
+Print Assumptions C01_lapjv_ref_augment_total.
+
+(* the whole reference solver returns - PARTIAL: the one premise arr_returns_b (Model.Lapjv, executable, evaluated on every
+   generated case by the check) says that the eps-retry passes of augmenting row reduction return within the model's fuel.
+   Missing lemma: arr_passes_total (termination of the retry loop `while u1 < u2 - eps and k < n * augmenting_row_reductions`
+   for epsr > 0; false for epsr = 0, C01_lapjv_fixed_eps0_not_total).  The premise is also necessary
+   (C01_lapjv_ref_returns_arr). *)
+Theorem C01_lapjv_ref_fixed_total_partial : forall n tri,
+  (forall t, In t tri -> (t_i t < n)%nat /\ (t_j t < n)%nat) ->
+  NoDup (map fst tri) ->
+  (forall j, (j < n)%nat -> exists t, In t tri /\ t_j t = j) ->
+  has_PM n tri ->
+  (forall i, (i < n)%nat -> (2 <= length (filter (fun t => (t_i t =? i)%nat) tri))%nat) ->
+  forall epsr k, 0 <= epsr -> arr_returns_b epsr k n tri = true ->
+  exists x y u v, lapjv_ref Fixed 0 epsr k n tri = Some (x, y, u, v).
+Proof. exact ref_total_2. Qed.
+Print Assumptions C01_lapjv_ref_fixed_total_partial.
+
+Theorem C01_lapjv_ref_returns_arr : forall n tri k epsr x y u v,
+  lapjv_ref Fixed 0 epsr k n tri = Some (x, y, u, v) -> arr_returns_b epsr k n tri = true.
+Proof. exact lapjv_ref_returns_arr. Qed.
+Print Assumptions C01_lapjv_ref_returns_arr.
+
+(* END TO END for the reference variant - the property's first sentence: for every sparse input in range without duplicate
+   pairs, with every column mentioned, a perfect matching and >= 2 candidates per row, the (Fixed, eps 0, true infinity)
+   solver RETURNS (x, y, u, v) with x a minimum-cost perfect matching over listed pairs and x, y mutually inverse
+   permutations - under the same single premise arr_returns_b (missing lemma: arr_passes_total, see above). *)
+Theorem C01_lapjv_ref_fixed_correct_partial : forall n tri,
+  (forall t, In t tri -> (t_i t < n)%nat /\ (t_j t < n)%nat) ->
+  NoDup (map fst tri) ->
+  (forall j, (j < n)%nat -> exists t, In t tri /\ t_j t = j) ->
+  has_PM n tri ->
+  (forall i, (i < n)%nat -> (2 <= length (filter (fun t => (t_i t =? i)%nat) tri))%nat) ->
+  forall epsr k, 0 <= epsr -> arr_returns_b epsr k n tri = true ->
+  exists x y u v, lapjv_ref Fixed 0 epsr k n tri = Some (x, y, u, v) /\ Optimal n tri x /\ Inverse n x y.
+Proof. exact ref_correct_2. Qed.
+Print Assumptions C01_lapjv_ref_fixed_correct_partial.
+
+(* the same with the eps band ON (the code's 2^-26 at :202 and :208) for costs on a grid coarser than eps, e.g. integers;
+   the premise is then the one for eps 0 in the retry decision (for which it can fail: C01_lapjv_fixed_eps0_not_total) *)
+Theorem C01_lapjv_ref_fixed_correct_grid_partial : forall n tri,
+  (forall t, In t tri -> (t_i t < n)%nat /\ (t_j t < n)%nat) ->
+  NoDup (map fst tri) ->
+  (forall j, (j < n)%nat -> exists t, In t tri /\ t_j t = j) ->
+  has_PM n tri ->
+  (forall i, (i < n)%nat -> (2 <= length (filter (fun t => (t_i t =? i)%nat) tri))%nat) ->
+  forall g eps epsr k,
+  0 <= eps < g -> 0 <= epsr < g -> (forall t, In t tri -> (g | t_c t)) -> arr_returns_b 0 k n tri = true ->
+  exists x y u v, lapjv_ref Fixed eps epsr k n tri = Some (x, y, u, v) /\ Optimal n tri x /\ Inverse n x y.
+Proof. exact ref_correct_grid_2. Qed.
+Print Assumptions C01_lapjv_ref_fixed_correct_grid_partial.
+
+(* END TO END, FULL (no premise left), for augmenting_row_reductions = 0 - the setting of the F20 witness: for EVERY sparse
+   input in range without duplicate pairs, with every column mentioned and a perfect matching - one-candidate rows and
+   columns included - and any eps, the reference solver (row offset repaired, true infinity in augment) returns (x, y, u, v)
+   with x a minimum-cost perfect matching over listed pairs and x, y mutually inverse permutations.  (With 0 passes the prices
+   after reduction transfer are finite whatever the number of candidates, so the finite-price invariant Inv is available.) *)
+Theorem C01_lapjv_ref_fixed_correct_k0 : forall n tri,
+  (forall t, In t tri -> (t_i t < n)%nat /\ (t_j t < n)%nat) ->
+  NoDup (map fst tri) ->
+  (forall j, (j < n)%nat -> exists t, In t tri /\ t_j t = j) ->
+  has_PM n tri ->
+  forall eps epsr,
+  exists x y u v, lapjv_ref Fixed eps epsr 0 n tri = Some (x, y, u, v) /\ Optimal n tri x /\ Inverse n x y.
+Proof. exact ref_correct_k0. Qed.
+Print Assumptions C01_lapjv_ref_fixed_correct_k0.
 
 (* completeness of phases 1-3 (every row is pending or assigned) ... *)
 Theorem C01_phase1_comp : forall n tri,
